@@ -10,13 +10,24 @@ from ..project import num
 from ..record import Recorder, reset_options
 
 
+GIVEN_RNG = None      # set per trace: the generator deciding whether constructor arguments are the caller's own arrays
+
+
 def mono(rec, exps, names, coef, shape=(), **kw):
     """c * prod q_i**e_i through polynomial_from_attributes (itself judged)."""
     size = 1
     for s in shape:
         size *= s
-    return rec.do("from_attributes", [], rows=[list(exps)], coefs=[[num(coef)] * size], shape=list(shape),
-                  names=list(names), rc="none", rn="true", via="function", dtype="int64", bigexp=max(exps), **kw)
+    given = []
+    if GIVEN_RNG is not None and GIVEN_RNG.random() < 0.4:
+        # the caller's own exponent table, in an integer dtype that just holds the exponents
+        import numpy
+        fits = [d for d in ("uint8", "uint16", "int16", "int32", "uint32", "int64", "uint64") if max(exps) <= numpy.iinfo(d).max]
+        given = [rec.new(numpy.array([list(exps)], dtype=GIVEN_RNG.choice(fits[:3] + fits)))]
+        given += [rec.new(numpy.full(tuple(shape), coef, dtype="int64"))]
+    return rec.do("from_attributes", given, rows=[list(exps)], coefs=[[num(coef)] * size], shape=list(shape),
+                  names=list(names), rc=("none" if GIVEN_RNG is None else GIVEN_RNG.choice(["none", "true"])), rn="true",
+                  via="function", dtype="int64", bigexp=max(exps), **kw)
 
 
 def poly2(rec, rows, names, coefs, bigexp):
@@ -25,6 +36,8 @@ def poly2(rec, rows, names, coefs, bigexp):
 
 
 def one_trace(rng, tid, prop, sweep=None):
+    global GIVEN_RNG
+    GIVEN_RNG = rng
     reset_options()
     rec = Recorder(tid, prop)
     mode = rng.choice(["sweep", "pairs", "pairs", "tuples", "tuples"])
